@@ -1,0 +1,179 @@
+//! Verification hook (cargo feature `verif`, off by default).
+//!
+//! Nothing in here changes what hannibal does.  The module provides *name-shadowing shims* for
+//! the three runtime entry points the default build hard-wires (`tokio::spawn`,
+//! `tokio::time::sleep`, `futures_timer::Delay`).  When a test harness has installed a
+//! [`Backend`] on the current thread the shims hand the future / the sleep to that backend, so the
+//! unmodified actor loops, timer tasks and handler timeouts run on a harness-controlled executor
+//! with a virtual clock.  Without an installed backend every shim forwards to the real crate.
+use std::{
+    cell::RefCell,
+    future::Future,
+    pin::Pin,
+    sync::Arc,
+    task::{Context, Poll},
+    time::Duration,
+};
+
+pub type BoxFut = Pin<Box<dyn Future<Output = ()> + Send + 'static>>;
+
+/// What a sleep is used for (lets the harness tell timer sleeps from handler timeouts).
+#[derive(Clone, Copy, Debug, PartialEq, Eq)]
+pub enum SleepKind {
+    /// `Spawner::sleep` (intervals, delayed sends)
+    Timer,
+    /// `futures_timer::Delay` racing a handler invocation
+    HandlerTimeout,
+}
+
+pub trait Backend: Send + Sync {
+    /// Run `fut` as a new task.  `output` is the type name of the task's result
+    /// (`Result<Actor, _>` for actor loops, `()` for timer tasks).
+    fn spawn(&self, output: &'static str, fut: BoxFut);
+    fn sleep(&self, duration: Duration, kind: SleepKind) -> BoxFut;
+}
+
+thread_local! {
+    static BACKEND: RefCell<Option<Arc<dyn Backend>>> = const { RefCell::new(None) };
+}
+
+/// Install a backend for the current thread; returns the previous one.
+pub fn install(backend: Arc<dyn Backend>) -> Option<Arc<dyn Backend>> {
+    BACKEND.with(|b| b.borrow_mut().replace(backend))
+}
+
+/// Remove the backend of the current thread.
+pub fn uninstall() -> Option<Arc<dyn Backend>> {
+    BACKEND.with(|b| b.borrow_mut().take())
+}
+
+fn backend() -> Option<Arc<dyn Backend>> {
+    BACKEND.with(|b| b.borrow().clone())
+}
+
+pub(crate) mod tokio {
+    use super::*;
+
+    pub fn spawn<F>(future: F) -> task::JoinHandle<F::Output>
+    where
+        F: Future + Send + 'static,
+        F::Output: Send + 'static,
+    {
+        if let Some(backend) = backend() {
+            let (tx, rx) = futures::channel::oneshot::channel();
+            backend.spawn(
+                std::any::type_name::<F::Output>(),
+                Box::pin(task::Guarded {
+                    future: Some(Box::pin(future)),
+                    tx: Some(tx),
+                }),
+            );
+            task::JoinHandle::Virtual(rx)
+        } else {
+            task::JoinHandle::Real(::tokio::spawn(future))
+        }
+    }
+
+    pub mod task {
+        use super::*;
+        use futures::channel::oneshot;
+
+        /// The task failed (panicked or was cancelled).
+        #[derive(Debug)]
+        pub struct JoinError;
+
+        pub enum JoinHandle<T> {
+            Real(::tokio::task::JoinHandle<T>),
+            Virtual(oneshot::Receiver<Result<T, JoinError>>),
+        }
+
+        impl<T> Future for JoinHandle<T> {
+            type Output = Result<T, JoinError>;
+            fn poll(self: Pin<&mut Self>, cx: &mut Context<'_>) -> Poll<Self::Output> {
+                match self.get_mut() {
+                    JoinHandle::Real(handle) => {
+                        Pin::new(handle).poll(cx).map(|r| r.map_err(|_| JoinError))
+                    }
+                    JoinHandle::Virtual(rx) => {
+                        Pin::new(rx).poll(cx).map(|r| r.unwrap_or(Err(JoinError)))
+                    }
+                }
+            }
+        }
+
+        /// Mirrors what a tokio task does around the future it runs: a panic is caught, the
+        /// future is dropped first, then the join side is told; if the task is dropped
+        /// (cancelled) the join side sees an error.
+        pub(crate) struct Guarded<F: Future> {
+            pub(crate) future: Option<Pin<Box<F>>>,
+            pub(crate) tx: Option<oneshot::Sender<Result<F::Output, JoinError>>>,
+        }
+
+        impl<F: Future> Future for Guarded<F> {
+            type Output = ();
+            fn poll(self: Pin<&mut Self>, cx: &mut Context<'_>) -> Poll<()> {
+                let this = self.get_mut();
+                let Some(future) = this.future.as_mut() else {
+                    return Poll::Ready(());
+                };
+                let polled = std::panic::catch_unwind(std::panic::AssertUnwindSafe(|| {
+                    future.as_mut().poll(cx)
+                }));
+                let result = match polled {
+                    Ok(Poll::Pending) => return Poll::Pending,
+                    Ok(Poll::Ready(value)) => Ok(value),
+                    Err(_panic) => Err(JoinError),
+                };
+                let future = this.future.take();
+                let _ = std::panic::catch_unwind(std::panic::AssertUnwindSafe(move || {
+                    drop(future)
+                }));
+                if let Some(tx) = this.tx.take() {
+                    let _ = tx.send(result);
+                }
+                Poll::Ready(())
+            }
+        }
+    }
+
+    pub mod time {
+        use super::*;
+
+        pub async fn sleep(duration: Duration) {
+            if let Some(backend) = backend() {
+                backend.sleep(duration, SleepKind::Timer).await
+            } else {
+                ::tokio::time::sleep(duration).await
+            }
+        }
+    }
+}
+
+pub(crate) mod futures_timer {
+    use super::*;
+
+    pub enum Delay {
+        Real(::futures_timer::Delay),
+        Virtual(BoxFut),
+    }
+
+    impl Delay {
+        pub fn new(duration: Duration) -> Self {
+            if let Some(backend) = backend() {
+                Delay::Virtual(backend.sleep(duration, SleepKind::HandlerTimeout))
+            } else {
+                Delay::Real(::futures_timer::Delay::new(duration))
+            }
+        }
+    }
+
+    impl Future for Delay {
+        type Output = ();
+        fn poll(self: Pin<&mut Self>, cx: &mut Context<'_>) -> Poll<()> {
+            match self.get_mut() {
+                Delay::Real(delay) => Pin::new(delay).poll(cx),
+                Delay::Virtual(fut) => fut.as_mut().poll(cx),
+            }
+        }
+    }
+}
